@@ -222,6 +222,12 @@ impl Decoder for FrameDecoder {
     type Error = Error;
 
     fn decode(&mut self, src: &mut BytesMut) -> Result<Option<Self::Item>, Self::Error> {
+        // The fixed part of the frame header after the size field
+        if src.len() < 4 {
+            return Err(Error::DecodeError(
+                "frame is shorter than the frame header".to_string(),
+            ));
+        }
         let doff = src.get_u8();
         let ftype = src.get_u8();
         let channel = src.get_u16();
